@@ -326,6 +326,18 @@ theorem C15_world_error_unchanged {cfg : Cfg} (K : CfgOK E.pf cfg) (hE : CodecOK
   simp only [xsrun]
   exact xsstep_error_contents cfg.N _ o e hp
 
+/-- **C15, every multi-handle history: well-formed after every operation.** After any X-history
+(hence, applied to prefixes, after every single operation, successful or rejected) every handle of
+the model is well-formed: its length is the number of elements iteration yields, and an indexed
+read succeeds exactly below the length (`Coll.SeqWF`). -/
+theorem C15_world_wellformed {cfg : Cfg} (K : CfgOK E.pf cfg) (hE : CodecOK E)
+    (hcf : CollisionFree E A) (nz : NoZeroNode A) (ops : List (XOp T)) (i : Nat) (c : Coll T)
+    (hc : (xrun E A mixIn cfg MWorld.empty ops).2.colls[i]? = some c) : c.SeqWF E.pf := by
+  obtain ⟨_, f, _, Hs⟩ := xrun_refines (mixIn := mixIn) K hE hcf nz ops
+  obtain ⟨s, _, hI⟩ := Hs.get_some hc
+  obtain ⟨xs, I, _⟩ := hI.inv
+  exact I.seqWF K
+
 end More
 
 /-! ## Non-vacuity -/
